@@ -283,6 +283,30 @@ pub fn message(frames: &[Vec<u8>]) -> Vec<u8> {
     v
 }
 
+/// The same message with every frame in the 8-octet size form (legal for any body length:
+/// "long-size: body is 0 to 2^63-1 octets").
+pub fn message_long(frames: &[Vec<u8>]) -> Vec<u8> {
+    assert!(!frames.is_empty());
+    let mut v = Vec::new();
+    for (i, f) in frames.iter().enumerate() {
+        v.extend_from_slice(&frame_hdr(if i + 1 != frames.len() { 1 } else { 0 }, f.len(), true));
+        v.extend_from_slice(f);
+    }
+    v
+}
+
+/// How a scripted *peer* writes a message: mostly the shortest size form, but one message in
+/// eight (decided by its content) with every size in the 8-octet form — peers need not
+/// pick the shortest form, only the library's own output is held to that (C01).
+pub fn message_as_peer(frames: &[Vec<u8>]) -> Vec<u8> {
+    let h = frames.iter().fold(frames.len() as u64, |a, f| crate::prng::mix(a ^ f.len() as u64 ^ f.first().copied().unwrap_or(0) as u64 ^ ((f.last().copied().unwrap_or(0) as u64) << 8)));
+    if h % 8 == 0 {
+        message_long(frames)
+    } else {
+        message(frames)
+    }
+}
+
 pub fn props(list: &[(&[u8], &[u8])]) -> Vec<u8> {
     let mut v = Vec::new();
     for (n, val) in list {
